@@ -37,11 +37,33 @@ func facts(pkgs map[string]*pkgInfo) string {
 			names = append(names, n)
 		}
 		sort.Strings(names)
-		var sends, recvs, gos, cfguses []string
+		var sends, recvs, gos, cfguses, iousers, writecallers []string
 		for _, n := range names {
 			fd := pi.funcs[n]
 			if fd.Body == nil {
 				continue
+			}
+			// single-writer discipline of the socket: which functions touch conn.io (the bufio
+			// reader/writer pair) and which call conn.write
+			usesIO, callsWrite := false, false
+			ast.Inspect(fd.Body, func(x ast.Node) bool {
+				switch v := x.(type) {
+				case *ast.SelectorExpr:
+					if exprText(pi, v) == "conn.io" {
+						usesIO = true
+					}
+				case *ast.CallExpr:
+					if exprText(pi, v.Fun) == "conn.write" {
+						callsWrite = true
+					}
+				}
+				return true
+			})
+			if usesIO {
+				iousers = append(iousers, coqStr(n))
+			}
+			if callsWrite {
+				writecallers = append(writecallers, coqStr(n))
 			}
 			// every read/write of a Config field through conn.cfg / cfg, per function
 			seen := map[string]bool{}
@@ -62,9 +84,19 @@ func facts(pkgs map[string]*pkgInfo) string {
 			fmt.Fprintf(&b, "Definition flow_%s_%s : list string :=\n  [%s].\n", pn, coqIdent(n), strings.Join(flow, "; "))
 			// the source text of every if / for / switch-case condition, in source order, and the
 			// field names initialised by composite literals (e.g. Client(): lastsent: time.Now())
-			var conds, inits []string
+			var conds, inits, assigns []string
 			ast.Inspect(fd.Body, func(x ast.Node) bool {
 				switch v := x.(type) {
+				case *ast.AssignStmt:
+					// plain assignments to a FIELD of a local object, as source text "x.f = e"
+					// (e.g. Client(): dialer.Timeout = cfg.Timeout); conn.* fields are in the flow
+					if v.Tok == token.ASSIGN && len(v.Lhs) == 1 && len(v.Rhs) == 1 {
+						if se, ok := v.Lhs[0].(*ast.SelectorExpr); ok {
+							if l := exprText(pi, se); !strings.HasPrefix(l, "conn.") {
+								assigns = append(assigns, coqStr(l+" = "+exprText(pi, v.Rhs[0])))
+							}
+						}
+					}
 				case *ast.IfStmt:
 					conds = append(conds, coqStr(exprText(pi, v.Cond)))
 				case *ast.ForStmt:
@@ -86,11 +118,16 @@ func facts(pkgs map[string]*pkgInfo) string {
 			if len(inits) > 0 {
 				fmt.Fprintf(&b, "Definition inits_%s_%s : list string :=\n  [%s].\n", pn, coqIdent(n), strings.Join(inits, "; "))
 			}
+			if len(assigns) > 0 {
+				fmt.Fprintf(&b, "Definition assigns_%s_%s : list string :=\n  [%s].\n", pn, coqIdent(n), strings.Join(assigns, "; "))
+			}
 		}
 		fmt.Fprintf(&b, "\nDefinition chan_sends_%s : list (string * string) :=\n  [%s].\n", pn, strings.Join(sends, "; "))
 		fmt.Fprintf(&b, "Definition chan_recvs_%s : list (string * string) :=\n  [%s].\n", pn, strings.Join(recvs, "; "))
 		fmt.Fprintf(&b, "Definition go_stmts_%s : list (string * string) :=\n  [%s].\n", pn, strings.Join(gos, "; "))
-		fmt.Fprintf(&b, "Definition cfg_uses_%s : list (string * string) :=\n  [%s].\n\n", pn, strings.Join(cfguses, "; "))
+		fmt.Fprintf(&b, "Definition cfg_uses_%s : list (string * string) :=\n  [%s].\n", pn, strings.Join(cfguses, "; "))
+		fmt.Fprintf(&b, "Definition conn_io_users_%s : list string :=\n  [%s].\n", pn, strings.Join(iousers, "; "))
+		fmt.Fprintf(&b, "Definition conn_write_callers_%s : list string :=\n  [%s].\n\n", pn, strings.Join(writecallers, "; "))
 	}
 	// every use of the logging package: (function, level, const-folded format, argument expressions)
 	for _, pn := range []string{"client", "state"} {
